@@ -6,7 +6,7 @@ another hash algorithm) x {shallow, expand} x {dry, real} x store class
 (+ read-only refusal), compared with a set-difference reference.
 """
 
-CASE_TIMEOUT = 120  # seconds per pool task (the unchanged tree needs a small fraction of this)
+CASE_TIMEOUT = 600  # seconds per pool task (the unchanged tree needs a small fraction of this)
 
 import itertools
 import os
@@ -247,8 +247,158 @@ def run_one(kind, store, used, shallow, dry, cachemode, read_only=False, cache_r
         return viol, ("ok", len(removed), ret)
 
 
+# ---- sessions: several gc calls of one process on one store -------------------------------------------
+
+SESSION_USED = [[], ["A"], ["A", "x"], ["B"]]
+BETWEEN = ["nothing", "second-handle-adds-w", "add_bytes-w", "second-handle-removes-y"]
+HANDLES = ["same-object", "fresh-object", "get_odb"]
+
+
+def run_session(cfg):
+    """cfg: kind (local/base), handle, calls [[used, shallow, dry, alg, read_only], ...], between [...].
+
+    One process, one store directory holding the quick universe; every call is judged against the store as it
+    is right before that call.  `alg` is the algorithm the handle is configured with and the used ids are named
+    by (md5 / md5-dos2unix: the contents of the alphabet have the same value under both)."""
+    from dvc_objects.errors import ObjectDBPermissionError
+
+    from dvc_data.hashfile.db import get_odb
+    from dvc_data.hashfile.gc import gc
+
+    from ..lab import LFS
+
+    viol = []
+    outcomes = []
+    with World() as w:
+        path = w.p("store")
+        seed_odb = make_odb(cfg["kind"], path)
+        for n in ("A", "B", "x", "y", "z", "Araw"):
+            put_raw(seed_odb, oid_of(n), bytes_of(n))
+        held = None
+        for i, (used, shallow, dry, alg, ro) in enumerate(cfg["calls"]):
+            if i:
+                b = cfg["between"][i - 1]
+                other = make_odb(cfg["kind"], path)
+                if b == "second-handle-adds-w":
+                    put_raw(other, FILES["w"], CONTENTS["w"])
+                elif b == "add_bytes-w" and held is not None:
+                    held.add_bytes(FILES["w"], CONTENTS["w"])
+                elif b == "second-handle-removes-y":
+                    py = other.oid_to_path(FILES["y"])
+                    if os.path.exists(py):
+                        os.chmod(py, 0o644)
+                        os.unlink(py)
+            kw = {"hash_name": alg, "read_only": ro}
+            if cfg["handle"] == "same-object" and held is not None:
+                odb = held
+            elif cfg["handle"] == "get_odb" and cfg["kind"] == "local":
+                odb = get_odb(LFS, path, **kw)
+            else:
+                odb = make_odb(cfg["kind"], path, **kw)
+            held = odb
+            before = objects_only(store_snapshot(path))
+            cur = set(before)
+            protected = set()
+            loadable = True
+            for n in used:
+                protected.add(oid_of(n))
+                if n in TREES and not shallow:
+                    if oid_of(n) in cur:
+                        protected.update(TREES[n].values())
+                    else:
+                        loadable = False
+            exc = None
+            ret = None
+            try:
+                ret = gc(odb, [hi(oid_of(n), alg) for n in used], shallow=shallow, dry=dry)
+            except BaseException as e:  # noqa: BLE001
+                exc = e
+            after = objects_only(store_snapshot(path))
+            removed = cur - set(after)
+            where = f"call {i} {(used, shallow, dry, alg, ro)} of {cfg}"
+            if ro:
+                if not isinstance(exc, ObjectDBPermissionError):
+                    viol.append(("readonly-not-refused", f"exc={exc!r} ret={ret!r} at {where}"))
+                if after != before:
+                    viol.append(("readonly-store-mutated", where))
+                outcomes.append("ro")
+                continue
+            if removed & protected:
+                viol.append(("used-object-removed", f"{sorted(removed & protected)} at {where}"))
+            if set(after) - cur or any(after[o][0] != before[o][0] for o in after if o in before):
+                viol.append(("store-content-changed", where))
+            if exc is not None:
+                if not loadable and isinstance(exc, FileNotFoundError):
+                    if removed:
+                        viol.append(("unloadable-used-dir-but-removed", where))
+                    outcomes.append("unloadable")
+                    continue
+                viol.append((f"gc-raises-{type(exc).__name__}", f"{exc!r} at {where}"))
+                outcomes.append("exc")
+                continue
+            if not loadable:
+                outcomes.append("unloadable-ok")
+                continue
+            expect = cur - protected
+            if dry and removed:
+                viol.append(("dry-run-removed", f"{sorted(removed)} at {where}"))
+            if not dry and removed != expect:
+                if expect - removed:
+                    viol.append(("unused-object-kept", f"{sorted(expect - removed)} at {where}"))
+                if removed - expect - protected:
+                    viol.append(("extra-removed", f"{sorted(removed - expect)} at {where}"))
+            if ret != len(expect):
+                viol.append(("wrong-count", f"returned {ret}, expected {len(expect)} at {where}"))
+            outcomes.append(("ok", len(removed), ret))
+    return viol, outcomes
+
+
+def session_cfgs(kind, handle, first):
+    out = []
+    algs = ["md5"] if handle == "same-object" or kind == "base" else ["md5", "md5-dos2unix"]
+    for used2 in SESSION_USED:
+        for shallow2 in (True, False):
+            for dry2 in (False, True):
+                for alg2 in algs:
+                    for ro2 in ((False, True) if handle != "same-object" and not dry2 and shallow2 else (False,)):
+                        for b in BETWEEN:
+                            if b == "add_bytes-w" and handle != "same-object":
+                                continue
+                            out.append({"kind": kind, "handle": handle, "between": [b],
+                                        "calls": [list(first) + ["md5", False], [used2, shallow2, dry2, alg2, ro2]]})
+    return out
+
+
+def session_case(case):
+    res = {"n": 0, "trans": 0, "states": set(), "outcomes": set(), "nontrivial": set(), "viol": [],
+           "vac": {"sessions": 0, "second_call_removed_something": 0}}
+    sigs = set()
+    for cfg in session_cfgs(case["kind"], case["handle"], case["first"]):
+        viol, outcomes = run_session(cfg)
+        res["n"] += 1
+        res["trans"] += len(cfg["calls"])
+        res["vac"]["sessions"] += 1
+        if isinstance(outcomes[-1], tuple) and outcomes[-1][1]:
+            res["vac"]["second_call_removed_something"] += 1
+        d = digest_obj(cfg)
+        res["states"].add(d)
+        res["nontrivial"].add(d)
+        res["outcomes"].add(repr(outcomes))
+        for sig, detail in viol:
+            sig = f"{sig}/session"
+            if sig not in sigs:
+                sigs.add(sig)
+                res["viol"].append((sig, detail, dict(cfg, part="session")))
+    res["states"] = sorted(res["states"])
+    res["outcomes"] = sorted(res["outcomes"])[:40]
+    res["nontrivial"] = sorted(res["nontrivial"])
+    return res
+
+
 def run_case(case):
     """All used-sets x modes for one (class, store content)."""
+    if case.get("part") == "session":
+        return session_case(case)
     tier = case["tier"]
     _, used_u = universe(tier)
     res = {"n": 0, "trans": 0, "states": set(), "outcomes": set(), "nontrivial": set(),
@@ -327,6 +477,8 @@ def run_case(case):
 
 
 def replay(case):
+    if case.get("part") == "session":
+        return [(f"{s_}/session", d_) for s_, d_ in run_session({k: v for k, v in case.items() if k != "part"})[0]]
     viol, _ = run_one(case["kind"], case["store"], case["used"], case["shallow"],
                       case["dry"], case["cachemode"], read_only=case.get("ro", False),
                       cache_ro=case.get("cache_ro", False), unpacked=case.get("unpacked", False),
@@ -351,7 +503,11 @@ def run(ctx):
         "subset of the used universe x {shallow,expand(self|cache_odb)} x {dry,real} x "
         "{LocalHashFileDB,HashFileDB,LocalHashFileDB of the legacy md5-dos2unix algorithm}, plus read-only refusal; "
         "the used universe lists ids of the twin algorithm (same value, md5 <-> md5-dos2unix) before the store's own; "
-        "tree B lists two names that differ only in Unicode normalisation form; non-trivial = store has "
+        "tree B lists two names that differ only in Unicode normalisation form; sessions: two gc calls of one process on one "
+        "store (4 used sets x shallow/expand x dry/real each; the second through the same store object, a fresh one or "
+        "get_odb(), configured md5 / md5-dos2unix / read-only; between them nothing, an object added through a second "
+        "handle / add_bytes, an object removed through a second handle), each call judged against the store as it is "
+        "right before it; non-trivial = store has "
         ">=2 objects incl. a directory object and the used set is non-empty"
     )
     ctx.bound = {"objects": objs, "used_universe": used,
@@ -361,6 +517,15 @@ def run(ctx):
         "a used directory object that is loadable from nowhere makes expansion "
         "undefined: only 'nothing is removed' is demanded then",
     ]
-    ctx.require("expanded_dir_protects_file", "removed_something", "path_spelling_or_bulk_runs")
+    ctx.require("expanded_dir_protects_file", "removed_something", "path_spelling_or_bulk_runs", "sessions",
+                "second_call_removed_something")
     cs = list(cases(ctx.tier))
+    for kind in ("local", "base"):
+        for handle in HANDLES:
+            if handle == "get_odb" and kind != "local":
+                continue
+            for used1 in SESSION_USED:
+                for shallow1 in (True, False):
+                    for dry1 in (True, False):
+                        cs.append({"part": "session", "kind": kind, "handle": handle, "first": [used1, shallow1, dry1]})
     ctx.run_cases("run_case", cs, chunksize=1, det=4)
